@@ -60,6 +60,7 @@ type Contract struct {
 	Split     int
 	SplitDeep bool
 	Pure      bool
+	ResultPure string // assumption: function values this function returns are side-effect free, deterministic functions of their arguments
 	Unfold    map[string]bool
 	CaseVar   string
 	CaseVals  []string
@@ -188,6 +189,11 @@ func parseContractFile(fset *token.FileSet, f *ast.File, pkg *packages.Package) 
 				cur.Inline = true
 			case "pure":
 				cur.Pure = true
+			case "resultpure":
+				cur.ResultPure = strings.TrimSpace(rest)
+				if cur.ResultPure == "" {
+					cur.ResultPure = "function values returned are side-effect free and deterministic"
+				}
 			case "unfold":
 				if cur.Unfold == nil {
 					cur.Unfold = map[string]bool{}
